@@ -39,7 +39,8 @@ func init() {
 	})
 }
 
-// gateType finds the named func type in package sm whose ServeDIAM consults smpeer.FromContext.
+// gateType finds the named type in package sm — a func type, or a struct holding one handler — whose ServeDIAM
+// consults smpeer.FromContext.
 func (c *Ctx) gateType() (*types.Named, *ssa.Function) {
 	for _, f := range c.P.LibraryFuncs() {
 		if f.Name() != "ServeDIAM" || f.Signature.Recv() == nil || pkgOf(f).Path() != pkgSM {
@@ -49,7 +50,20 @@ func (c *Ctx) gateType() (*types.Named, *ssa.Function) {
 		if n == nil {
 			continue
 		}
-		if _, ok := n.Underlying().(*types.Signature); !ok {
+		switch u := n.Underlying().(type) {
+		case *types.Signature:
+		case *types.Struct:
+			// a gate object: a struct that holds the wrapped handler
+			nh := 0
+			for i := 0; i < u.NumFields(); i++ {
+				if isHandlerish(u.Field(i).Type()) {
+					nh++
+				}
+			}
+			if nh != 1 {
+				continue
+			}
+		default:
 			continue
 		}
 		found := false
@@ -109,6 +123,24 @@ func (c *Ctx) handlerOrigin(v ssa.Value, gate *types.Named, depth int, seen map[
 		return res
 	case *ssa.Call:
 		if g := flow.StaticCallee(x); g != nil && pkgOf(g) != nil && pkgOf(g).Path() == pkgSM {
+			// a constructor of the gate: everything it returns is a gate value
+			if gate != nil && g.Blocks != nil {
+				rvs := flow.ReturnValues(g, 0)
+				all := len(rvs) > 0
+				for _, rv := range rvs {
+					v := rv
+					if mi, ok := v.(*ssa.MakeInterface); ok {
+						v = mi.X
+					}
+					n := flow.NamedOf(v.Type())
+					if n == nil || n.Obj() != gate.Obj() {
+						all = false
+					}
+				}
+				if all {
+					return "wrapped"
+				}
+			}
 			// package-local constructor: its arguments must not smuggle an application handler
 			for _, a := range x.Call.Args {
 				if isHandlerish(a.Type()) {
@@ -300,8 +332,36 @@ func runC10(c *Ctx) {
 		var wrapped []*ssa.Call
 		for _, ci := range flow.CallInstrs(gateFn) {
 			call, ok := ci.(*ssa.Call)
-			if ok && !call.Call.IsInvoke() && len(gateFn.Params) > 0 && call.Call.Value == ssa.Value(gateFn.Params[0]) {
+			if !ok || call.Call.IsInvoke() || len(gateFn.Params) == 0 {
+				continue
+			}
+			if call.Call.Value == ssa.Value(gateFn.Params[0]) {
 				wrapped = append(wrapped, call)
+				continue
+			}
+			// the wrapped handler held in a field of the gate object
+			if isHandlerish(call.Call.Value.Type()) {
+				switch fv := call.Call.Value.(type) {
+				case *ssa.Field:
+					if fv.X == ssa.Value(gateFn.Params[0]) {
+						wrapped = append(wrapped, call)
+					}
+				case *ssa.UnOp:
+					if fa, isFA := fv.X.(*ssa.FieldAddr); isFA && fv.Op == token.MUL {
+						base := fa.X
+						if al, isAl := base.(*ssa.Alloc); isAl {
+							// value receiver spilled to a local
+							for _, ref := range flow.Referrers(al) {
+								if st, isSt := ref.(*ssa.Store); isSt && st.Addr == ssa.Value(al) && st.Val == ssa.Value(gateFn.Params[0]) {
+									base = st.Val
+								}
+							}
+						}
+						if base == ssa.Value(gateFn.Params[0]) {
+							wrapped = append(wrapped, call)
+						}
+					}
+				}
 			}
 		}
 		if len(wrapped) != 1 {
@@ -422,25 +482,16 @@ func runC10(c *Ctx) {
 				continue
 			}
 			// dominated by successful Parse — in this function, or (when the storing was moved into an
-			// unexported helper with a single call site) in the function that calls it
-			f := f
-			var setAt ssa.Instruction = setc
-			for hop := 0; hop < 2; hop++ {
-				hasParse := false
-				for _, cj := range flow.CallInstrs(f) {
+			// unexported helper) in every function that calls the helper
+			hasParse := func(g *ssa.Function) bool {
+				for _, cj := range flow.CallInstrs(g) {
 					if flow.IsCallTo(cj, pkgSMParser, "CER", "Parse") || flow.IsCallTo(cj, pkgSMParser, "CEA", "Parse") {
-						hasParse = true
+						return true
 					}
 				}
-				if hasParse {
-					break
-				}
-				cs := c.uniqueSite(f)
-				if cs == nil {
-					break
-				}
-				f, setAt = cs.Parent(), cs
+				return false
 			}
+			checkAt := func(f *ssa.Function, setAt ssa.Instruction, key string) {
 			var parse *ssa.Call
 			parsesCER := false
 			for _, cj := range flow.CallInstrs(f) {
@@ -456,15 +507,15 @@ func runC10(c *Ctx) {
 			}
 			if parse == nil {
 				r.Fail("R3", key, c.pos(call), "handshake metadata is created in a function that does not validate a CER/CEA with Parse")
-				continue
+				return
 			}
 			if !flow.Dominates(parse, setAt) || errorEdgeBlocks(parse)[setAt.Block()] || !errEdgeTested(parse) {
 				r.Fail("R3", key, c.pos(setAt), "SetContext(NewContext(...)) is not confined to the nil-error edge of Parse: a rejected peer gets handshake metadata")
-				continue
+				return
 			}
 			if p := pathFromErrEdge(f, parse, setAt); p != nil {
 				r.Fail("R3", key, c.pos(setAt), "SetContext(NewContext(...)) is reachable from the error edge of Parse", c.witness(p)...)
-				continue
+				return
 			}
 			if parsesCER {
 				// success CEA writer
@@ -484,20 +535,41 @@ func runC10(c *Ctx) {
 				}
 				if writer == nil {
 					r.Fail("R3", key, c.pos(call), "server side: no call of a function that writes the success CEA (Answer(2001) + WriteTo) in the CER handler")
-					continue
+					return
 				}
 				if !flow.Dominates(writer, setAt) || !errEdgeTested(writer) {
 					r.Fail("R3", key, c.pos(setAt), "metadata is stored before / regardless of the success CEA having been written")
-					continue
+					return
 				}
 				if p := pathFromErrEdge(f, writer, setAt); p != nil {
 					r.Fail("R3", key, c.pos(setAt), "metadata is stored although writing the success CEA failed", c.witness(p)...)
-					continue
+					return
 				}
 				r.Ok("R3", key, c.pos(setAt), "stored with SetContext only after CER.Parse succeeded and the success CEA was written without error")
 			} else {
 				r.Ok("R3", key, c.pos(setAt), "stored with SetContext only on the nil-error edge of CEA.Parse")
 			}
+			}
+			var lift func(g *ssa.Function, at ssa.Instruction, hop int)
+			lift = func(g *ssa.Function, at ssa.Instruction, hop int) {
+				if hasParse(g) || hop >= 2 || g.Object() != nil && g.Object().Exported() {
+					k := key
+					if g != f {
+						k = fname(g) + ":NewContext"
+					}
+					checkAt(g, at, k)
+					return
+				}
+				css := c.librarySites(g)
+				if len(css) == 0 || len(css) > 4 {
+					checkAt(g, at, key)
+					return
+				}
+				for _, cs := range css {
+					lift(cs.Parent(), cs, hop+1)
+				}
+			}
+			lift(f, setc, 0)
 		}
 	}
 	if nProd == 0 {
